@@ -6,6 +6,11 @@
  * $RV_SHIM_KILL_AT=<n>, $RV_SHIM_VICTIM=self|group : SIGKILL immediately BEFORE the n-th call
  * $RV_SHIM_ROOT : only paths under this directory are counted (the project root)
  * $RV_SHIM_WRITES=1 : also count write()/pwrite()/writev() on files under $RV_SHIM_ROOT
+ * $RV_SHIM_RACE_FD=<fd>, $RV_SHIM_RACE_AT=<k>, $RV_SHIM_RACE_OUT=<fd> : reads on <fd> (the jobserver token pipe) are
+ *     numbered across the process tree (second counter slot, logged as "r<k> <pid> tokread"); the k-th one LOSES THE
+ *     RACE: immediately before it, the shim takes one byte out of the pipe (what a sibling process that "got there
+ *     first" does) and passes it to the harness through RACE_OUT, then lets the real read() proceed on the now
+ *     possibly empty pipe.
  */
 #define _GNU_SOURCE
 #include <dlfcn.h>
@@ -33,6 +38,8 @@ static int count_writes;
 static char root[PATH_MAX];
 static size_t rootlen;
 static __thread int busy;
+static int race_fd = -1, race_out = -1;
+static uint64_t race_at;
 
 static void init(void) {
     if (active != -1) return;
@@ -69,6 +76,10 @@ static void init(void) {
     count_writes = w && *w == '1';
     strncpy(root, r, sizeof root - 1);
     rootlen = strlen(root);
+    const char *rf = getenv("RV_SHIM_RACE_FD"), *ra = getenv("RV_SHIM_RACE_AT"), *ro = getenv("RV_SHIM_RACE_OUT");
+    if (rf) race_fd = atoi(rf);
+    if (ra) race_at = strtoull(ra, NULL, 10);
+    if (ro) race_out = atoi(ro);
     active = 1;
 }
 
@@ -196,3 +207,29 @@ ssize_t pwrite64(int fd, const void *b, size_t n, off64_t o) {
     init(); fdpoint("write", fd); return real(fd, b, n, o);
 }
 ssize_t writev(int fd, const struct iovec *v, int c) { REAL(writev); init(); fdpoint("write", fd); return real(fd, v, c); }
+
+#include <poll.h>
+ssize_t read(int fd, void *b, size_t n) {
+    REAL(read);
+    init();
+    if (active == 1 && race_fd >= 0 && fd == race_fd && !busy) {
+        busy = 1;
+        uint64_t k = __atomic_add_fetch(ctr + 1, 1, __ATOMIC_SEQ_CST);
+        if (logfd >= 0) {
+            char line[96];
+            int len = snprintf(line, sizeof line, "r%llu %d tokread -\n", (unsigned long long)k, (int)getpid());
+            ssize_t (*rwrite)(int, const void *, size_t) = dlsym(RTLD_NEXT, "write");
+            if (len > 0) rwrite(logfd, line, (size_t)len);
+        }
+        if (race_at && k == race_at) {
+            struct pollfd pf = {fd, POLLIN, 0};
+            char c;
+            if (poll(&pf, 1, 0) == 1 && (pf.revents & POLLIN) && real(fd, &c, 1) == 1 && race_out >= 0) {
+                ssize_t (*rwrite)(int, const void *, size_t) = dlsym(RTLD_NEXT, "write");
+                rwrite(race_out, &c, 1);
+            }
+        }
+        busy = 0;
+    }
+    return real(fd, b, n);
+}
